@@ -278,3 +278,15 @@ def get_direct_dependencies(task: Task) -> OrderedSet[Task]:
         for dependency_task in find_tasks_in_param(field_value):
             dependency_tasks.add(dependency_task)
     return dependency_tasks
+
+
+def get_direct_dependency_instances(task: Task) -> list[Task]:
+    """Return every task object found in the attributes of the given task
+    as a direct (first-level) dependency. Unlike get_direct_dependencies(),
+    equal but distinct task instances are all returned, so that each of
+    them can be provided with results."""
+    return [
+        dependency_task
+        for field in fields(task)
+        for dependency_task in find_tasks_in_param(getattr(task, field.name))
+    ]
